@@ -36,7 +36,9 @@ EXPLANATION = (
     "backup_database/restore_backup touch the FTP client and the file system only past _can_perform_action and the "
     "post-fix restore runs only when the fixing countdown has ended; R17.7 (contradiction rule) an item whose `.deleted` flag a "
     "function branches on comes from a look-up that can return deleted items (include_deleted=True, also through a "
-    "property), and restore_backup has such a branch - otherwise the branch that restores a deleted database file is dead. NOT decided: that a restore of a healthy backup "
+    "property), and restore_backup has such a branch - otherwise the branch that restores a deleted database file is dead; R17.8 (a) every FTP client method that inspects the reply's "
+    "status code returns True only with the code known to be OK (enum-state dataflow over {NOT_FOUND, OK, ERROR, unset}), (b) no DatabaseClient "
+    "branch decides from the client-wide `connected` flag while that flag is kept by constant stores. NOT decided: that a restore of a healthy backup "
     "returns the file to GOOD (health round trip through FTP and the file system), capacity boundaries under "
     "interleaved connects/disconnects, ACL/route blocking - these are behavioural."
 )
@@ -743,6 +745,65 @@ def r17_7(ctx: Ctx) -> None:
 
 
 
+def r17_8(ctx: Ctx) -> None:
+    """(a) restore/backup rest on the FTP client's verdict: a transfer method that looks at the reply's status code answers True
+    only for OK (an unanswered request leaves the code None, an unreachable server leaves it unset).  (b) the database client's
+    `connected` attribute is a client-wide flag kept by constant stores; with several connections it says nothing about any one of
+    them, so no decision may be taken from it."""
+    ix = ctx.ix
+    ctx.rule("R17.8", "(a) FTP client methods that inspect the reply's status code return True only when it is OK; (b) no DatabaseClient "
+                      "decision reads the client-wide `connected` flag while that flag is kept by constant stores")
+    codes = set(ix.enum_members(ix.cls("FTPStatusCode")))
+    if "OK" not in codes:
+        raise AnalysisError("R17.8: FTPStatusCode has no member OK")
+    uni = codes | {"<none>"}
+    n = 0
+    for f in ix.cls("FTPClient").methods.values():
+        if isinstance(f.node, ast.Lambda):
+            continue
+        g = CFG(f.node)
+        ld = LocalDefs(f.node)
+        subjects = set()
+        for e in g.edges():
+            es = edge_state_set(e, ["status_code"], uni, ld)
+            if es is not None:
+                subjects.add(es[0])
+        rets_true = [x for x in g.nodes if x.kind == "stmt" and isinstance(x.ast, ast.Return) and isinstance(x.ast.value, ast.Constant)
+                     and x.ast.value.value is True]
+        if not subjects or not rets_true or f.name == "receive":
+            continue  # `receive` handles replies of every status; it does not report a transfer's success
+        for subj in sorted(subjects):
+            flow = state_flow(g, subj, ["status_code"], uni)
+            for r in rets_true:
+                got = set(flow.get(r.id, frozenset(uni)))
+                n += 1
+                ctx.record("R17.8", ctx.key(f, f"True only for {subj}.status_code OK"), f.loc(r.ast), got <= {"OK"},
+                           f"`return True` is reached with the reply's status in {sorted(got)}" + ("" if got <= {"OK"} else
+                           ": success is reported for a reply that is not OK (or for no reply at all)"))
+    ctx.floor("R17.8", "FTP client success returns behind a status test", n, 2)
+    dbc = ix.cls("DatabaseClient")
+    stores = [s for s in stores_to_attr(ix, ["connected"]) if s.fn is not None and s.fn.cls is dbc]
+    derived = [s for s in stores if not isinstance(s.value, ast.Constant)]
+    reads = []
+    for f in dbc.methods.values():
+        if isinstance(f.node, ast.Lambda):
+            continue
+        g = CFG(f.node)
+        for c in g.nodes:
+            r = c.expr_root() if c.kind == "cond" else None
+            if r is not None and any(isinstance(x, ast.Attribute) and x.attr == "connected" and unparse(x.value) == "self" and
+                                     isinstance(x.ctx, ast.Load) for x in ast.walk(r)):
+                reads.append((f, c))
+    if derived or not stores:
+        ctx.ok("R17.8", f"{dbc.path}::DatabaseClient::connected flag", f"{dbc.path}:{dbc.node.lineno}",
+               "the flag is no longer kept by constant stores only: whether it is fit for decisions is not decided here", trivial=True)
+    else:
+        ctx.record("R17.8", f"{dbc.path}::DatabaseClient::no decision reads the client-wide connected flag", f"{dbc.path}:{dbc.node.lineno}",
+                   not reads, f"{len(stores)} constant stores, no branch reads it" if not reads else
+                   "a branch in " + ", ".join(sorted({f.short for f, _ in reads})) + " decides from `self.connected`, which the last connect / "
+                   "disconnect of any connection overwrites: with two connections the decision is wrong for one of them")
+
+
 def check(ctx: Ctx) -> None:
     ix = ctx.ix
     svc = ix.enum_members(ix.cls("ServiceOperatingState"))
@@ -757,3 +818,4 @@ def check(ctx: Ctx) -> None:
     r17_5(ctx)
     r17_6(ctx)
     r17_7(ctx)
+    r17_8(ctx)
